@@ -9,7 +9,7 @@ LEAN_MODULES = ['Glom.Props.C12']
 FACT_FILES = ['TFacts', 'ExcFacts', 'RegFacts', 'MutFacts', 'c11']
 READY = True
 MANIFEST = dict(
-    text="Lean 4 theorems about an executable model of Delete.__init__/glomit/_del_one (driven by the branch table and caught exception classes EXTRACTED from _del_one's AST), _apply_for_each and the `delete` registry op on a heap with object identity: for every heap, target, wildcard-free path of any length in every addressing style and ignore_missing in {False, True} the model's outcome is Python's `del` on the addressed key / index / attribute (same object returned, later list items shift, every other cell untouched), a missing final element is a PathDeleteError and a missing parent a PathAccessError with the heap unchanged, both silently ignored under ignore_missing, any other deletion fault leaves the heap unchanged; wildcard paths delete at every match in order. `c12_missing_final` hinges on a facts obligation (`[` catches KeyError and IndexError, `.` AttributeError, plain segments Exception) discharged by `decide` on the tables regenerated from /repo; model tied to the code by differential execution (full heap snapshot, exception class chain).",
+    text="Lean 4 theorems about an executable model of Delete.__init__/glomit/_del_one (driven by the branch table and caught exception classes EXTRACTED from _del_one's AST), _apply_for_each and the `delete` registry op on a heap with object identity: for every heap, target, wildcard-free path of any length in every addressing style and ignore_missing in {False, True} the model's outcome is Python's `del` on the addressed key / index / attribute (same object returned, later list items shift, every other cell untouched), a missing final element is a PathDeleteError and a missing parent a PathAccessError with the heap unchanged, both silently ignored under ignore_missing, any other deletion fault leaves the heap unchanged; wildcard paths delete at every match in order; the path a Delete keeps is the path as it is read (S.a / Path(S,'a') name the scope variable a) [c12_facts_s_first, c12_refines_spec]. `c12_missing_final` hinges on a facts obligation (`[` catches KeyError and IndexError, `.` AttributeError, plain segments Exception) discharged by `decide` on the tables regenerated from /repo; model tied to the code by differential execution (full heap snapshot, exception class chain).",
     note="trusted: Lean kernel + {propext, Classical.choice, Quot.sound}; extractor (extract/facts/c11.py); harness/driver; CPython's delitem/delattr on dict/list/tuple/set/plain instances and the fault classes of harness/props/mutobjs.py as modelled in Glom/Model/C11.lean (validated by the correspondence only); default registry (C13 covers registration); `**` paths outside the model.",
     technique='Lean 4 refinement proof (Delete model = plain del on a heap, frame lemma) + facts obligation by decide over the extracted except-clauses + differential correspondence',
     ref='DESIGN.md §3 C12')
@@ -17,8 +17,8 @@ RULE = ('type-directed: targets as for C11 (dict/OrderedDict/dict subclass/list/
         'incl. read-only-property and raising-__delattr__/__delitem__ classes; sharing, cycles); a path is '
         'derived by walking the target (length 1-5 quick / 1-8 thorough) and ends in an existing element '
         '(success), an absent key / out-of-range index / absent attribute (missing final), or stops existing '
-        'earlier (missing parent); spelled as dotted text, Path(...), T[..]/T.attr, mixtures, S-rooted, with '
-        '0-2 `*` wildcards; ignore_missing in {False, True}; keys / attributes also named like op characters '
+        'earlier (missing parent); spelled as dotted text, Path(...), T[..]/T.attr, mixtures, S-rooted (first step as '
+        'S[name], S.name or Path(S, name): the scope variable), with 0-2 `*` wildcards; ignore_missing in {False, True}; keys / attributes also named like op characters '
         'and wildcards (x, X, P, *, **); 12% of the cases apply the SAME Delete object first to 1-2 other '
         'targets (histories); a one-edit mutation stream plants a bad segment '
         '/ wrong access kind at every position. non-trivial = path length >= 2 or anything but a plain '
@@ -61,6 +61,8 @@ def one_case(rng, tier, classes, cflags, force=None):
     if style == 'text' and not all(k == 'star' or (k != 'raw' and M.text_ok(k, key)) for k, key in steps):
         style = 't'
     sp = M.spell(rng, steps, style)
+    if sroot:
+        sp = M.s_first(rng, sp)        # S.name / Path(S, name) / S[name]: the scope variable `name`
     if scope is None:
         cflags = [f for f in cflags if f[0] != 'Scope']
     return {'classes': classes, 'cflags': cflags, 'heap': heap, 'target': root, 'scope': scope,
